@@ -10,6 +10,12 @@ CHECKS = {
  "C02": ("exploration", "deterministic simulation: extent-partition invariant after every step + injected ENOSPC (rawdb)",
          "Extent invariant and placement rule evaluated after every op of seeded histories with varied initial sizes; every 4th run injects ENOSPC into the next set_len through the I/O seam.",
          "Trusted: invariant function reading Layout/Regions through public + cfg(verif) accessors.", "6 C02"),
+ "C05": ("fault_enumeration", "deterministic simulation: crash at every I/O event boundary of seeded histories, simulated disk with per-page writeback choices",
+         "Crash points of each generated history are enumerated exhaustively (every mmap store / set_len / sync / punch boundary) and each yields the sync-only image, three adversarial writeback images and r random page-version subsets, all opened with the real Database::open; histories and random subsets are sampled.",
+         "Trusted: the crash model stated in the property (4 KiB page atomicity, length changes durable in order), the shadow disk (self-checked against the real files after every history), the expectation tracker (flushed/untouched/overwritten-in-place bookkeeping).", "6 C05"),
+ "C12": ("fault_enumeration", "deterministic simulation: every hole-punch event checked against durable+current metadata images, crash at every event boundary inside compact",
+         "compact() is inserted into every history; each punch event is compared, at the moment it is issued, with the regions described by the durable and by the current metadata image; every crash point inside/after compact goes through the C05 oracle; byte identity, placement and logical file length are compared around every compact. The racing-writer half (schedules) is covered by the C10/C11 thread world when built.",
+         "Trusted: as C05; RegionMetadata::from_bytes for decoding the metadata images.", "6 C12"),
  "C13": ("exploration", "deterministic simulation: refused requests inside seeded histories, model unchanged + continuation",
          "Refused requests are issued at random points of rawdb histories; the call must fail, the state must equal the unchanged model at once and through the continuation.",
          "Trusted: reference model; the refused-request catalogue (see DESIGN 6 C13).", "6 C13"),
